@@ -7,15 +7,15 @@ import Mathlib.Tactic.NormNum
 import Mathlib.Algebra.Order.Ring.Basic
 
 /-!
-# C13 — CIE Lab conversion matches the CIE definition and round-trips (partial)
+# C13 — CIE Lab conversion matches the CIE definition and round-trips
 
 Exact theorems about the CIE definition over ℝ (`Prism/Spec/Lab.lean`).  The float code
 (`Prism/Model/Xyz.lean`: `toLAB`, `fromLAB`) is tied to the Go code bit-for-bit given the
 `math.Pow` results it observed, and each observed result is checked against `PowSpec`
 (relative error ≤ 2⁻⁴⁸ of the exact cube / cube root) in exact rational arithmetic on every
-correspondence line.  Partial: the distance between the float code and this real-valued
-definition (≤ 10⁻³, and the 10⁻⁵ round trip) is measured by the harness against an independent
-float64 evaluation on every run, not proved; it depends on `math.Pow`'s accuracy.
+correspondence line.  The distance between the float `ToLAB` and this real-valued definition is
+proved in `C13Float.lean` (forward) and `C13FloatInv.lean` (inverse and round trip) under exactly
+that `PowSpec` hypothesis.
 -/
 
 namespace Prism.Lab
